@@ -1,3 +1,93 @@
-From YV Require Import PyBase Checks.
-Example c20_smoke : split_bar [97;124;124;98]%N = [[97%N]; []; [98%N]].
-Proof. reflexivity. Qed.
+(* C20 -- the shell's own checks mark the offending characters and honour the
+   accepted patterns.  Only statements; proofs in proofs/ChecksProofs.v.
+   Model: coq/model/Checks.v (yalafi/shell/checks.py), character classes from
+   coq/gen/CharTables.v. *)
+From YV Require Import PyBase CharTables Regex RegexProofs Checks ChecksProofs.
+
+Definition single_py := single_letter_matches py_isalpha py_word.
+Definition equation_py := equation_messages py_word py_res py_islower.
+Definition hits_py := hits py_isalpha py_word.
+
+(* (1) --single-letters: a message is produced exactly for the isolated
+   letters of the text (a character of [^\W0-9_] with no word character on
+   either side) whose position is not inside a hit of the accepted-pattern
+   scan; it has length 1 *)
+Theorem C20_single_sound_complete : forall plain opt msg,
+  In msg (single_py plain (Some opt)) <->
+  exists i, msg = mk_message plain i 1 /\ isolated_letter py_word plain i /\
+            covered (hits_py (accept_list opt) plain) i = false.
+Proof. exact (single_letter_messages py_isalpha py_word). Qed.
+Print Assumptions C20_single_sound_complete.
+
+(* (2) every such letter is marked once *)
+Theorem C20_single_once : forall plain opt,
+  NoDup (map m_offset (single_py plain (Some opt))).
+Proof. exact (single_letter_once py_isalpha py_word). Qed.
+Print Assumptions C20_single_once.
+
+(* (3) a hit of the accepted-pattern scan is an occurrence of one accepted
+   pattern, with a word boundary where the pattern begins / ends with a
+   letter *)
+Theorem C20_hit_is_accepted_occurrence : forall pats plain b m,
+  In (b, m) (hits_py pats plain) ->
+  1 <= m /\ b + m <= length plain /\
+  exists p, In p pats /\ m = length p /\
+    (exists r, skipn b plain = p ++ r) /\
+    (first_alpha py_isalpha p = true ->
+       wb py_word (prev_char_at plain b) (hd_error (skipn b plain)) = true) /\
+    (last_alpha py_isalpha p = true ->
+       wb py_word (nth_error (skipn b plain) (m - 1))
+                  (nth_error (skipn b plain) m) = true).
+Proof. exact (hit_is_accepted_occurrence py_isalpha py_word). Qed.
+Print Assumptions C20_hit_is_accepted_occurrence.
+
+(* (4) the context excerpt marks the same characters as offset and length do
+   in the submitted text (tab and line break shown as blank) *)
+Theorem C20_context_marks_same : forall txt o l,
+  o + l <= length txt ->
+  let c := create_context txt o l in
+  cx_length c = l /\
+  pyslice (cx_text c) (cx_offset c) (cx_offset c + l) =
+    map ctx_char (pyslice txt o (o + l)).
+Proof. exact context_marks_same. Qed.
+Print Assumptions C20_context_marks_same.
+
+(* (5) --equation-punctuation: the messages are the matches of the scan that
+   are not accepted; such a match starts with a placeholder between word
+   boundaries, no alternative of which is followed by another placeholder,
+   and behind which comes neither a full stop nor a lower-case word; offset
+   and length lie inside the text *)
+Theorem C20_equation_messages : forall plain pls msg,
+  In msg (equation_py plain pls) <->
+  exists i m, msg = mk_message plain i m /\
+    In (i, m, false) (finditer_x (equ_match py_word py_res py_islower pls) plain).
+Proof. exact (equation_messages_spec py_word py_res py_islower). Qed.
+Theorem C20_equation_reported_is_rejected : forall plain pls i m,
+  In (i, m, false) (finditer_x (equ_match py_word py_res py_islower pls) plain) ->
+  1 <= m /\ i + m <= length plain /\
+  rejected_at py_word py_res py_islower pls plain i m.
+Proof. exact (equation_reported_is_rejected py_word py_res py_islower). Qed.
+Theorem C20_equation_none_skipped : forall plain pls j,
+  j < length plain ->
+  (forall i m ok,
+     In (i, m, ok) (finditer_x (equ_match py_word py_res py_islower pls) plain) ->
+     ~ (i <= j < i + m)) ->
+  equ_lengths py_word pls (prev_char_at plain j) (skipn j plain) = [] \/
+  exists ok, equ_match py_word py_res py_islower pls (prev_char_at plain j)
+               (skipn j plain) = Some (0, ok).
+Proof. exact (equation_none_skipped py_word py_res py_islower). Qed.
+Print Assumptions C20_equation_messages.
+Print Assumptions C20_equation_reported_is_rejected.
+Print Assumptions C20_equation_none_skipped.
+
+(* non-vacuity *)
+Example C20_example_single :
+  map m_offset (single_py [65;32;98;32;83;46;160;53;32;120]%N (Some [83;46;126]%N))
+  = [0; 2; 9].
+Proof. vm_compute. reflexivity. Qed.
+Example C20_example_equation :
+  map (fun m => (m_offset m, m_length m))
+      (equation_py [85;45;85;32;84;104;101;32;85;45;85;46;32;85;45;85;44;32;85;45;85;32;105;115]%N
+                   [[85;45;85]%N])
+  = [(0, 7)].
+Proof. vm_compute. reflexivity. Qed.
